@@ -719,8 +719,22 @@ class Inliner:
             def visit_Assign(self, n):
                 if len(n.targets) == 1 and isinstance(n.targets[0], ast.Tuple) and isinstance(n.value, ast.Tuple) and \
                         len(n.targets[0].elts) == len(n.value.elts) and all(isinstance(x, ast.Name) for x in n.targets[0].elts):
-                    if [x.id for x in n.targets[0].elts] == [getattr(v, 'id', None) for v in n.value.elts]:
+                    tg = [x.id for x in n.targets[0].elts]
+                    vs = n.value.elts
+                    if tg == [getattr(v, 'id', None) for v in vs]:
                         return ast.copy_location(ast.Pass(), n)
+                    # independent components: a, b = (x, y) -> a = x; b = y   (no earlier target is read by a later value)
+                    safe = True
+                    for i_, t_ in enumerate(tg):
+                        if getattr(vs[i_], 'id', None) == t_:
+                            continue
+                        for v_ in vs[i_ + 1:]:
+                            if t_ in {x.id for x in ast.walk(v_) if isinstance(x, ast.Name)}:
+                                safe = False
+                    if safe:
+                        out = [ast.copy_location(ast.Assign(targets=[ast.Name(id=t_, ctx=ast.Store())], value=v_, type_comment=None), n)
+                               for t_, v_ in zip(tg, vs) if getattr(v_, 'id', None) != t_]
+                        return out or ast.copy_location(ast.Pass(), n)
                 return n
         for tree in self.trees.values():
             S().visit(tree)
